@@ -30,6 +30,7 @@ PermErr(a, ty, x) == ErrTerm(C3("permission_error", A(a), A(ty), x))
 None == A("$none")
 
 Key(g) == <<g.n, Len(g.a)>>
+FzKey(v) == [v EXCEPT !.t = "fz"]     \* store key of the goals suspended on the variable v (freeze/2)
 PI(g)  == C2("/", A(g.n), I(Len(g.a)))
 
 (* ---- fresh copies ---- *)
@@ -119,7 +120,7 @@ Control == { <<"true", 0>>, <<"fail", 0>>, <<"false", 0>>, <<"!", 0>>, <<",", 2>
              <<"\\+", 1>>, <<"=", 2>>, <<"\\=", 2>>, <<"==", 2>>, <<"\\==", 2>>, <<"is", 2>>,
              <<"throw", 1>>, <<"catch", 3>>, <<"findall", 3>>, <<"log", 1>>, <<"halt", 0>>,
              <<"assertz", 1>>, <<"asserta", 1>>, <<"retract", 1>>, <<"clause", 2>>,
-             <<"bb_put", 2>>, <<"bb_get", 2>>, <<"forall", 2>>, <<"once", 1>>, <<"ignore", 1>>,
+             <<"bb_put", 2>>, <<"bb_get", 2>>, <<"freeze", 2>>, <<"forall", 2>>, <<"once", 1>>, <<"ignore", 1>>,
              <<"$cut", 1>>, <<"$popcatch", 1>>, <<"$retry", 2>>, <<"$fa_push", 1>>, <<"$fa_done", 1>>,
              <<"$retract", 2>>, <<"$clause", 3>> }
          \cup {<<n, 1>> : n \in TypeTests} \cup {<<n, 2>> : n \in CmpOps}
@@ -248,6 +249,13 @@ Exec(m, fr, rest) ==
                              ELSE IF c.t = "a" THEN C(c.n, extra) ELSE [c EXCEPT !.a = c.a \o extra]
                  IN IF BadBody(m.st, goal) THEN Throw(m, TypeErr("callable", goal))
                     ELSE [m EXCEPT !.gs = <<F(goal, h0)>> \o rest]
+    [] IsF(g, "freeze", 2) ->
+         (* library(freeze): the goal is called at once when the first argument is bound, otherwise it is   *)
+         (* suspended on the variable (an attribute: kept in the store under the key FzKey(v), so that it   *)
+         (* is saved and restored with the bindings)                                                        *)
+         LET x == Deref(m.st, g.a[1]) IN
+         IF x.t # "v" THEN [m EXCEPT !.gs = <<F(Call1(g.a[2]), cb)>> \o rest]
+         ELSE [cont EXCEPT !.st = Bind(m.st, FzKey(x), IF FzKey(x) \in DOMAIN m.st THEN Conj(m.st[FzKey(x)], g.a[2]) ELSE g.a[2])]
     [] IsF(g, "=", 2) ->
          LET u == Unify(m.st, g.a[1], g.a[2])
          IN IF u.cyc THEN Finish(m, "cyclic") ELSE IF u.ok THEN [cont EXCEPT !.st = u.st] ELSE Backtrack(m)
@@ -355,7 +363,28 @@ Exec(m, fr, rest) ==
                       IN [cont EXCEPT !.st = u.st, !.k = m.k + 1, !.cps = cps1]
     [] IsF(g, "$retry", 2) -> TryClauses(m, g.a[1], g.a[2], cb, rest)
 
-Step(m) ==
+(* ---- coroutining: goals suspended by freeze/2 ---- *)
+(* After a step that bound a variable carrying a suspended goal, the goal is called before the rest of the   *)
+(* continuation (for a head unification: before the body of the clause).  A variable bound to another        *)
+(* unbound variable hands its goals over to that variable.  The order in which the goals of SEVERAL          *)
+(* variables bound by one step are woken is not specified: such runs end with status "wake-order" and are    *)
+(* dropped by the generators.                                                                                *)
+Unfrozen(k) == [k EXCEPT !.t = "v"]
+Without(st, k) == [x \in (DOMAIN st) \ {k} |-> st[x]]
+Wake(m) ==
+  IF m.phase # "run" THEN m
+  ELSE LET pend == {k \in DOMAIN m.st : k.t = "fz" /\ Unfrozen(k) \in DOMAIN m.st} IN
+       IF pend = {} THEN m
+       ELSE IF Cardinality(pend) > 1 THEN Finish(m, "wake-order")
+       ELSE LET k == CHOOSE k \in pend : TRUE
+                d == Deref(m.st, Unfrozen(k))
+                goal == m.st[k]
+                st1 == Without(m.st, k)
+            IN IF d.t = "v"
+               THEN [m EXCEPT !.st = Bind(st1, FzKey(d), IF FzKey(d) \in DOMAIN st1 THEN Conj(st1[FzKey(d)], goal) ELSE goal)]
+               ELSE [m EXCEPT !.st = st1, !.gs = <<F(Call1(goal), Len(m.cps))>> \o m.gs]
+
+Step0(m) ==
   IF m.steps >= MaxSteps THEN Finish(m, "diverge")
   ELSE LET m0 == [m EXCEPT !.steps = m.steps + 1] IN
   IF m.gs = <<>> THEN
@@ -363,6 +392,7 @@ Step(m) ==
          m1 == [m0 EXCEPT !.ans = Append(@, a)]
      IN IF Len(m1.ans) >= MaxAns THEN Finish(m1, "capped") ELSE Backtrack(m1)
   ELSE Exec(m0, m.gs[1], Tail(m.gs))
+Step(m) == Wake(Step0(m))
 
 (* a machine loaded with program prog (sequence of [h, b]), dynamic declarations dyn, query q *)
 Load(prog, dyn, q) ==
